@@ -47,6 +47,17 @@ def replay_dgor(model):
     pb = oil.pressure_bubblepoint_Standing(*a)
     f = lambda p: oil.solution_gor_Standing(m["T"], p, m["api"], m["gg"], m["rsi"])
     h = max(1e-3, 1e-4 * m["p"])
+    # the branch point itself: the solver's p equals p_b only under the exp/ln abstraction, so the replay evaluates the
+    # real functions at the real bubble point (bit for bit) and just above it, where the parent is the constant R_si
+    # (its own branch is `pressure >= p_b`) and the property demands a zero derivative
+    import math
+    for q in (pb, math.nextafter(pb, math.inf)):
+        if f(q) == m["rsi"]:
+            hand_b = oil.dgor_dpressure_Standing(m["T"], q, m["api"], m["gg"], m["rsi"])
+            if hand_b != 0.0:
+                m2 = dict(m, p=q)
+                return True, {"what": f"dRs/dp at the bubble point p = {q!r}: solution_gor_Standing is the constant initial GOR there "
+                                      f"(derivative 0) but dgor_dpressure_Standing returns {hand_b!r}", "inputs": m2}
     if abs(m["p"] - pb) <= 2 * h:
         return False, {"what": "too close to the bubble point for a finite-difference replay", "inputs": m}
     num = _richardson(f, m["p"], h)
